@@ -5,6 +5,8 @@ import (
 	"fmt"
 	"math/rand"
 	"net/url"
+	"os"
+	"path/filepath"
 	"sort"
 	"testing"
 	"time"
@@ -316,4 +318,117 @@ func init() {
 		return len(rep.Violations) > 0, fmt.Sprintf("accepted=%v ret=%s err=%q", o.Accepted, o.RetID, o.Err)
 	})
 	_ = url.URL{}
+}
+
+// TestC02Random is the reverse direction: random instants (off the lattice) and random
+// tolerance settings through the real code, logged for spec/C02Trace.tla.
+func TestC02Random(t *testing.T) {
+	rep := NewReport("C02")
+	defer rep.Finish(t)
+	n := 1500
+	if thorough() {
+		n = 15000
+	}
+	rng := newRand("c02random")
+	oldNow, oldMid, oldSkew := saml.TimeNow, saml.MaxIssueDelay, saml.MaxClockSkew
+	defer func() { saml.TimeNow, saml.MaxIssueDelay, saml.MaxClockSkew = oldNow, oldMid, oldSkew }()
+	spv := newSP(idpMetadata([]keyUse{{"signing", key("idp1").CertB64()}}))
+	now := c02Now.Add(time.Duration(seedVal()%1000) * time.Hour)
+	saml.TimeNow = func() time.Time { return now }
+	type line struct {
+		Mid      int64 `json:"mid"`
+		Skew     int64 `json:"skew"`
+		Abs      any   `json:"abs"`
+		Accepted bool  `json:"accepted"`
+		Ret      int   `json:"ret"`
+	}
+	var lines []line
+	// settings are package variables: draw a setting, then a batch of responses under it
+	for len(lines) < n {
+		mid := []int64{90000, 0, 1, 5000, 3600000, 250}[rng.Intn(6)]
+		skew := []int64{180000, 0, 1, 3000, 3600000, 777}[rng.Intn(6)]
+		saml.MaxIssueDelay = time.Duration(mid) * time.Millisecond
+		saml.MaxClockSkew = time.Duration(skew) * time.Millisecond
+		batch := make([]*c02Vec, 100)
+		for i := range batch {
+			v := &c02Vec{}
+			v.Cfg.Mid, v.Cfg.Skew = mid, skew
+			// offsets concentrate near the boundaries, with occasional far values
+			near := func(bound int64) int64 {
+				switch rng.Intn(4) {
+				case 0:
+					return bound + int64(rng.Intn(7)) - 3
+				case 1:
+					return bound + int64(rng.Intn(2001)) - 1000
+				default:
+					return bound + int64(rng.Intn(7200001)) - 3600000
+				}
+			}
+			v.Abs.RespII = near(-mid)
+			v.In.RespII = "x"
+			na := 1 + rng.Intn(2)
+			for k := 0; k < na; k++ {
+				a := c02Assn{II: near(-mid), NB: near(skew), NOOA: near(-skew)}
+				ac := c02AssnC{II: "x", NB: "x", NOOA: "x"}
+				for j := 0; j < 1+rng.Intn(3); j++ {
+					a.Confs = append(a.Confs, near(-skew))
+					ac.Confs = append(ac.Confs, "x")
+				}
+				v.Abs.Assns = append(v.Abs.Assns, a)
+				v.In.Assns = append(v.In.Assns, ac)
+			}
+			batch[i] = v
+		}
+		out := make([]line, len(batch))
+		parallel(len(batch), func(i int) {
+			v := batch[i]
+			r := newRand(fmt.Sprintf("c02random/%d/%d", len(lines), i))
+			doc := c02Build(v, now, r)
+			o := c02Run(spv, doc)
+			ret := 0
+			for k := range v.Abs.Assns {
+				if o.RetID == fmt.Sprintf("id-assn-%d", k+1) {
+					ret = k + 1
+				}
+			}
+			out[i] = line{Mid: v.Cfg.Mid, Skew: v.Cfg.Skew, Abs: v.Abs, Accepted: o.Accepted, Ret: ret}
+			rep.Eval("Random", fmt.Sprintf("r%d-%d", len(lines), i))
+			// the same clauses are judged here directly, so that a violation carries a replay
+			v.Class = "DontCare"
+			respOut := !(0 <= v.Abs.RespII+v.Cfg.Mid)
+			allOut := true
+			allStrict := 0 < v.Abs.RespII+v.Cfg.Mid
+			for _, a := range v.Abs.Assns {
+				ok, _ := c02Within(v, a)
+				if ok {
+					allOut = false
+				}
+				strict := 0 < a.II+v.Cfg.Mid && 0 > a.NB-v.Cfg.Skew && 0 < a.NOOA+v.Cfg.Skew
+				for _, c := range a.Confs {
+					strict = strict && 0 < c+v.Cfg.Skew
+				}
+				allStrict = allStrict && strict
+			}
+			if respOut || allOut {
+				v.Class = "MustReject"
+			} else if allStrict {
+				v.Class = "MustAccept"
+			}
+			v.Pred.Verdict = map[bool]string{true: "accept", false: "reject"}[o.Accepted]
+			c02Judge(rep, v, fmt.Sprintf("C02:random:mid=%d:skew=%d:%s", v.Cfg.Mid, v.Cfg.Skew, hashKey(fmt.Sprint(v.Abs))), doc, o, now)
+		})
+		lines = append(lines, out...)
+	}
+	f, err := os.Create(filepath.Join(workDir(), "trace.ndjson"))
+	if err != nil {
+		rep.Break("%v", err)
+		return
+	}
+	defer f.Close()
+	for _, l := range lines {
+		b, _ := json.Marshal(l)
+		f.Write(append(b, '\n'))
+	}
+	rep.Sample(lines[0])
+	rep.Extra["random_trace_lines"] = len(lines)
 }
